@@ -357,7 +357,14 @@ func (tk *task) Logf(format string, args ...any) {
 	}
 }
 
+// classOf maps a violation class of the C01 judgement to the property a run
+// serves: the same clients and servers also are the transport part of C07
+// (what a server does with a response it has finished with must not change
+// what a client receives).
+var classOf = func(class string) string { return class }
+
 func (tk *task) Failf(class, witness, format string, args ...any) {
+	class = classOf(class)
 	if tk.s.NoteKnown(class, witness, fmt.Sprintf(format, args...)) {
 		return
 	}
@@ -427,7 +434,27 @@ func (r *runner) wait() {
 
 // ---- the C01 run ----
 
-func runC01(s *kernel.Sim, cfg string) {
+// runC07 is the transport part of C07: every server hands the responses it
+// has finished with to a disposer that overwrites them, as the pools of the
+// production cloner will when the next request takes the pieces; queries of
+// concurrent clients on every transport must still get their own answers.
+// DNSCrypt stays out (its listed findings belong to C01 and C08).
+func runC07(s *kernel.Sim, _ string) {
+	classOf = func(class string) string {
+		if rest, ok := strings.CutPrefix(class, "C01/"); ok {
+			return "C07/transport-" + rest
+		}
+
+		return class
+	}
+	defer func() { classOf = func(class string) string { return class } }()
+
+	runWire(s, "nofault", true)
+}
+
+func runC01(s *kernel.Sim, cfg string) { runWire(s, cfg, false) }
+
+func runWire(s *kernel.Sim, cfg string, c07 bool) {
 	t := s.T
 	n := simnet.New(s)
 
@@ -456,13 +483,13 @@ func runC01(s *kernel.Sim, cfg string) {
 		boundBuf = kernel.Pick(t, []int{1, 4, 64}, "bound-chan")
 		s.Probe("interface-bound-listeners")
 	}
-	sv := startServers(s, n, p, serverOpts{dot: true, doh: true, doq: true, dnscrypt: true, bound: boundBuf})
+	sv := startServers(s, n, p, serverOpts{dot: true, doh: true, doq: true, dnscrypt: !c07, bound: boundBuf})
 	defer sv.shutdown()
 
 	nItems := t.Range(4, 24, "items")
 	items := make([]*item, nItems)
 	for i := range items {
-		if t.Chance(1, 3) {
+		if !c07 && t.Chance(1, 3) {
 			items[i] = genNonQuery(t, i)
 		} else {
 			items[i] = genQuery(t, i)
@@ -478,7 +505,9 @@ func runC01(s *kernel.Sim, cfg string) {
 	r.spawn("dot", func(tk *task) { clientStream(tk, n, "dot", addrDoT, items, clientTLS("dns.sim.test")) })
 	r.spawn("doh", func(tk *task) { clientDoH(tk, n, items) })
 	r.spawn("doq", func(tk *task) { clientDoQ(tk, n, items) })
-	r.spawn("dnscrypt", func(tk *task) { clientDNSCrypt(tk, n, sv, items) })
+	if !c07 {
+		r.spawn("dnscrypt", func(tk *task) { clientDNSCrypt(tk, n, sv, items) })
+	}
 	r.wait()
 	s.MarkNontrivial()
 	if s.Failed() != nil {
@@ -511,7 +540,7 @@ func runC01(s *kernel.Sim, cfg string) {
 
 	if sv.metrics.panics > 0 {
 		s.Probe("server-recovered-panic")
-		s.Failf("C01/panic", "a server recovered from a panic while handling input",
+		s.Failf(classOf("C01/panic"), "a server recovered from a panic while handling input",
 			"%d panics recovered", sv.metrics.panics)
 
 		return
